@@ -216,14 +216,14 @@ func cmdCheck(args []string) int {
 		}
 	}
 	sort.Strings(order)
-	os.MkdirAll(filepath.Join(verifDir, "replays"), 0o755)
-	old, _ := filepath.Glob(filepath.Join(verifDir, "replays", id+"-*.json"))
+	os.MkdirAll(outDir("replays"), 0o755)
+	old, _ := filepath.Glob(filepath.Join(outDir("replays"), id+"-*.json"))
 	for _, f := range old {
 		os.Remove(f)
 	}
 	for i, k := range order {
 		rp := byLabel[k]
-		rp.replayPath = filepath.Join(verifDir, "replays", fmt.Sprintf("%s-%03d.json", id, i+1))
+		rp.replayPath = filepath.Join(outDir("replays"), fmt.Sprintf("%s-%03d.json", id, i+1))
 		writeReplay(id, rp)
 	}
 	replayT := time.Duration(0)
@@ -513,4 +513,15 @@ func trunc(s string, n int) string {
 		return s
 	}
 	return s[:n/2] + " ... " + s[len(s)-n/2:]
+}
+
+// outDir is /verif/<kind>, or a scratch directory when the run targets a seeded worktree (VERIF_REPO): evidence
+// and replay files under /verif only ever come from runs against /repo itself.
+func outDir(kind string) string {
+	if os.Getenv("VERIF_REPO") != "" {
+		d := filepath.Join(os.TempDir(), "gosym-seed-"+kind)
+		os.MkdirAll(d, 0o755)
+		return d
+	}
+	return filepath.Join(verifDir, kind)
 }
